@@ -25,7 +25,7 @@ def load_tool():
 class CompactionDriver(ReorgDriver):
     FAMILY_PROP = dict(ReorgDriver.FAMILY_PROP, compaction='C14')
 
-    def raw_histories(self):
+    def raw_histories(self, max_flush_id=None):
         d = self.w.store.dbs.get('hist')
         out = {}
         rows = {}
@@ -34,6 +34,8 @@ class CompactionDriver(ReorgDriver):
         for k, v in d.items():
             if len(k) != HASHX_LEN + 2:
                 continue
+            if max_flush_id is not None and int.from_bytes(k[-2:], 'big') > max_flush_id:
+                continue        # a row of a history flush that ran ahead of the last UTXO flush
             out.setdefault(k[:-2], bytearray()).extend(v)
             rows[k[:-2]] = rows.get(k[:-2], 0) + 1
         return ({hx: [int.from_bytes(b[i:i + 5], 'little') for i in range(0, len(b), 5)]
@@ -43,6 +45,22 @@ class CompactionDriver(ReorgDriver):
         self.op_stop(op)
         self.hist_before, _rows = self.raw_histories()
         self.probe('c14.snapshots')
+
+    def op_snapshot_hist_unclean(self, op):
+        """The server died between a history flush and the matching UTXO flush: the histories the database
+        stands for are the rows up to the UTXO flush count (what every open keeps)."""
+        w = self.w
+        if w.server is not None:
+            w.crash()
+        st = self.stored_state()
+        uf = st['utxo_flush_count'] if st else 0
+        import ast
+        hst = w.store.dbs['hist'].get(b'state\0\0')
+        hf = ast.literal_eval(hst.decode())['flush_count'] if hst else 0
+        self.hist_before, _rows = self.raw_histories(max_flush_id=uf)
+        self.probe('c14.snapshots')
+        if hf > uf:
+            self.probe('c14.unclean_db_with_excess_rows')
 
     def op_check_hist(self, op):
         now, rows = self.raw_histories()
@@ -221,6 +239,16 @@ class CompactionFamily(ReorgFamily):
                 dict(op='mine', n=1, ntx=[3], seed=rng.getrandbits(32), keep=True),
                 dict(op='sync', keep=True),
                 dict(op='snapshot_hist', keep=True)]
+        if rng.random() < 0.2:
+            # "any database": one left by a server that died between a history flush and the UTXO flush
+            plan[-1:] = [dict(op='start', keep=True),
+                         dict(op='poker', period=(0.01, 0.2), p_full=0.2, keep=True),
+                         dict(op='mine', n=rng.randint(2, 5), ntx=ntx_list(rng, 4), seed=rng.getrandbits(32),
+                              keep=True),
+                         dict(op='crash_when', cond='flushop', skip=rng.choice([3, 4, 5, 8, 9, 13, 14]), window=60.0,
+                              keep=True),
+                         dict(op='poker', on=False, keep=True),
+                         dict(op='snapshot_hist_unclean', keep=True)]
         # the tool, possibly interrupted several times
         for _ in range(rng.randint(1, 3)):
             mode = rng.choice(['tool', 'loop', 'loop'])
